@@ -232,8 +232,23 @@ Qed.
 
 Lemma qinv_reachable cfg fx sp s : reachable_gen cfg fx sp s -> QInv s.
 Proof.
-  induction 1 as [|s te s' R IH H]; [apply qinv_init|].
-  eapply qinv_step; eauto; [eapply winv_reachable | eapply jinv_reachable]; eauto.
+  induction 1 as [|s te s' R IH H|s te s' R IH H]; [apply qinv_init| |].
+  - eapply qinv_step; eauto; [eapply winv_reachable | eapply jinv_reachable]; eauto.
+  - (* an extra notification only shrinks the wait set *)
+    destruct IH as [Q1 Q2]. destruct te as [t e].
+    destruct (xstep_inv _ _ _ _ H) as (Et & _ & (Q & _ & _ & _ & T & _) & [E|[(c & E1 & E2 & E3)|(c & v & V & E1 & E2 & E3)]]).
+    + constructor; rewrite ?Et, ?E; auto.
+    + destruct c; constructor; rewrite ?Et, ?Q, ?T; cbn [ws] in *.
+      * rewrite E1. constructor.
+      * rewrite E1. congruence.
+      * assert (E4 : wsJ (shr s') = wsJ (shr s)) by (apply (E2 CJ); discriminate). rewrite E4. auto.
+      * assert (E4 : wsJ (shr s') = wsJ (shr s)) by (apply (E2 CJ); discriminate). rewrite E4. auto.
+    + destruct c; constructor; rewrite ?Et, ?Q, ?T; cbn [ws] in *.
+      * rewrite E1. now apply rem_nodup.
+      * rewrite E1. intros NE Tn. assert (NE0 : wsJ (shr s) <> []) by (intros X; rewrite X in V; destruct V).
+        specialize (Q2 NE0 Tn). pose proof (rem_length v _ Q1 V). lia.
+      * assert (E4 : wsJ (shr s') = wsJ (shr s)) by (apply (E2 CJ); discriminate). rewrite E4. auto.
+      * assert (E4 : wsJ (shr s') = wsJ (shr s)) by (apply (E2 CJ); discriminate). rewrite E4. auto.
 Qed.
 
 (** * The theorem *)
